@@ -473,7 +473,11 @@ def _run_atom(ctx, params):
             ctx.check(f"deriv-radial-nu{nu}", subj, e, TOL_RADIAL, sig=_ratio_sig(float(got[j]), float(D[nu][j])) + ":" + str(tags[j]), detail={"got": float(got[j]), "numdiff": float(D[nu][j]), "point": P[j]})
 
     # spherical derivatives and Cartesian gradient: decided for r > 0 and off the z-axis
-    dec = (rr > 0) & (sinphi >= 1e-4)
+    # (points closer than 1e-6(1+|centre|) to the centre - grid points of a 1e-9 shell - are excluded as well: their
+    # direction is only known to eps*|centre|/r, numerical differentiation in the angles is ill-conditioned there)
+    rmin_dec = 1e-6 * (1.0 + float(np.max(np.abs(c))))
+    dec = (rr > rmin_dec) & (sinphi >= 1e-4)
+    ctx.count("angular-derivs-not-decided:closer-than-1e-6-to-centre", int(np.sum((rr > 0) & (rr <= rmin_dec))))
     Pd = P[dec]
     with ctx.guard("deriv-spherical", subj):
         ctx.hit("interpolant-call:spherical-derivs")
@@ -511,7 +515,8 @@ def _run_atom(ctx, params):
             h, _ = blo.fd_step(Pd, c, r)
             num = blo.cartesian_gradient(Fv, Pd, h)
             gsc = np.max(np.linalg.norm(num, axis=1)) + 1e-300
-            floor = 1e-12 * Fscale[dec] / h
+            # conditioning of the stencil: value rounding eps*|F|/h and coordinate rounding eps*|P|/h relative
+            floor = 1e-12 * Fscale[dec] / h + 32 * np.finfo(float).eps * np.max(np.abs(Pd), axis=1) / h * np.linalg.norm(num, axis=1)
             en = np.linalg.norm(grad[dec] - num, axis=1) / (gsc + floor / TOL_GRAD)
             j = int(np.nanargmax(en)) if np.all(np.isfinite(en)) else 0
             d = grad[dec][j] - num[j]
@@ -520,7 +525,7 @@ def _run_atom(ctx, params):
             ctx.check("deriv-cartesian", subj, np.max(en), TOL_GRAD, sig=sig, detail={"got": grad[dec][j], "numdiff": num[j], "point": Pd[j], "tag": str(tags[dec][j])})
             # documented zero convention on the z-axis: recorded, not decided (at the centre the interpolant is in general
             # not differentiable, nothing to compare with)
-            und = (~dec) & (rr > 0)
+            und = (~dec) & (rr > rmin_dec)
             ctx.count("gradient-not-decided:centre", int(np.sum(rr == 0)))
             ctx.count("gradient-not-decided:z-axis-or-closer-than-1e-4", int(np.sum(und)))
             if np.any(und):
